@@ -105,6 +105,11 @@ func (server *Server) RegisterExexutor(cmd string, executor Executor) {
 // Start starts the server.
 func (server *Server) Start() error {
 	server.lifecycleMutex.Lock()
+	if server.portListener != nil || server.tlsPortListener != nil {
+		// A started server keeps its listeners until Stop.
+		server.lifecycleMutex.Unlock()
+		return fmt.Errorf("%s is already started", PackageName)
+	}
 	server.stopping = false
 	server.lifecycleMutex.Unlock()
 
